@@ -35,6 +35,9 @@ type RegSpec struct {
 	// Enforce: a bearer token is accepted only when its scopes cover what the
 	// requested path needs, and the challenge names that scope (next to Challenge)
 	Enforce bool `json:"enforce,omitempty"`
+	// BasicLib: a Bearer registry that protects everything under /v2/lib/ with the
+	// Basic scheme instead (one host, two schemes, by path)
+	BasicLib bool `json:"basicLib,omitempty"`
 }
 
 // Act is one action of a history.
@@ -117,6 +120,9 @@ func genCase(t *rapid.T) Case {
 			}
 			r.Challenge = strings.Join(ss, " ")
 			r.Enforce = rapid.IntRange(0, 2).Draw(t, "enforce") != 0
+			if r.CredKind == "userpass" && rapid.IntRange(0, 2).Draw(t, "basicLib") == 1 {
+				r.BasicLib = true
+			}
 		}
 		if rapid.IntRange(0, 4).Draw(t, "redirect") == 0 {
 			// (net/http keeps the Authorization header on a redirect to the same host
@@ -190,6 +196,12 @@ func genMixed(t *rapid.T) Case {
 		}
 		if rapid.Bool().Draw(t, "extraScope") {
 			r.Challenge = rapid.SampledFrom(scopePool).Draw(t, "cscope")
+		}
+		if r.CredKind == "userpass" && rapid.IntRange(0, 3).Draw(t, "twoSchemes") == 2 {
+			// one host, two schemes: /v2/lib/ speaks Basic, the rest Bearer with a
+			// challenge that names no scope; a burst then runs a credential fetch and
+			// a scope-less token fetch for the same host at the same time
+			r.BasicLib, r.Enforce, r.Challenge = true, false, ""
 		}
 		c.Regs = append(c.Regs, r)
 	}
@@ -448,6 +460,9 @@ func (w *world) RoundTrip(req *http.Request) (*http.Response, error) {
 	}
 	w.count[host]++
 	sch := w.scheme(r)
+	if r.BasicLib && (sch == "bearer" || sch == "oauth2") && strings.HasPrefix(req.URL.Path, "/v2/lib/") {
+		sch = "basic"
+	}
 	authz := req.Header.Get("Authorization")
 	ok := false
 	switch sch {
@@ -881,6 +896,9 @@ func runInner(c Case) (res vt.Result, fail *vt.Fail) {
 			// one token fetch (two tolerated for a straggler that arrives after the
 			// first fetch completed and before its result was stored)
 			sch := r.Scheme
+			if r.BasicLib && strings.HasPrefix(a.Path, "/v2/lib/") && !a.Mixed {
+				sch = "basic" // this path of the registry speaks Basic
+			}
 			if a.Mixed && k > 1 {
 				res.Classes = append(res.Classes, "burst-with-different-scope-sets")
 				if r.Enforce && (sch == "bearer" || sch == "oauth2") {
@@ -899,7 +917,7 @@ func runInner(c Case) (res vt.Result, fail *vt.Fail) {
 					}
 				}
 			}
-			if k >= 3 && !a.Mixed && (sch == "bearer" || sch == "oauth2") && r.Scheme2 == "" && c.Cache == "shared" && r.CredKind != "access" {
+			if k >= 3 && !a.Mixed && (sch == "bearer" || sch == "oauth2") && r.Scheme2 == "" && !r.BasicLib && c.Cache == "shared" && r.CredKind != "access" {
 				if tokFetches > 2 {
 					return res, vt.Failf("C16/token-fetch-not-shared", "action %d: a burst of %d equal requests to %s caused %d token fetches", i, k, r.Host, tokFetches)
 				}
@@ -908,7 +926,7 @@ func runInner(c Case) (res vt.Result, fail *vt.Fail) {
 			// order-insensitive reuse: once a token exists for a canonical scope set, a
 			// later call whose hints + challenge scopes canonicalise to the same set
 			// (in whatever order or duplication) must be served from the cache
-			if k == 1 && c.Cache == "shared" && (sch == "bearer" || sch == "oauth2") && r.Scheme2 == "" && r.CredKind != "access" && r.Redirect == "" && wellFormed(a.Hints) && outs[0].err == nil {
+			if k == 1 && c.Cache == "shared" && (sch == "bearer" || sch == "oauth2") && r.Scheme2 == "" && !r.BasicLib && r.CredKind != "access" && r.Redirect == "" && wellFormed(a.Hints) && outs[0].err == nil {
 				key := fmt.Sprint(canon(append(append([]string(nil), a.Hints...), strings.Fields(challengeFor(&r, a.Path, a.Method))...)))
 				if covered[r.Host][key] && tokFetches > 0 {
 					return res, vt.Failf("C16/token-not-reused-for-equal-scope-set", "action %d: a token for host %s and scope set %s was already cached, but this call (hints %v, challenge %q) fetched a new one", i, r.Host, key, a.Hints, r.Challenge)
@@ -922,7 +940,7 @@ func runInner(c Case) (res vt.Result, fail *vt.Fail) {
 			// was minted for canonical(hints + challenge scopes)
 			// (the single-context cache is documented to fall back to a per-host token
 			// whatever the scopes; the scope-set rule is judged for NewCache and no cache)
-			if (sch == "bearer" || sch == "oauth2") && r.Scheme2 == "" && r.CredKind != "access" && c.Cache != "single" {
+			if (sch == "bearer" || sch == "oauth2") && r.Scheme2 == "" && !r.BasicLib && r.CredKind != "access" && c.Cache != "single" {
 				w.mu.Lock()
 				for _, sr := range reqs {
 					if sr.host != r.Host || sr.isRealm || !strings.HasPrefix(sr.auth, "Bearer TK~") {
